@@ -13,9 +13,44 @@ ASSUME_C11 = [
 ]
 
 
+def apalache_stage(rep, tier):
+    """Unbounded safety of the reducer: the inductive invariant of spec/apalache/MPInd.tla discharged by Apalache
+    (base case, inductive step, invariant => C11 safety).  Extra assurance on top of the bounded TLC exploration."""
+    import shutil
+    import subprocess
+    from common import SPEC, Scratch
+    if shutil.which("apalache-mc") is None:
+        rep.notes.append("apalache-mc not found: the inductive-invariant stage was skipped")
+        return
+    obligations = [("inductive step", ["--init=IndInit", "--inv=IndInv", "--length=1"])]
+    if tier == "thorough":
+        obligations += [("base case", ["--init=Init", "--inv=IndInv", "--length=0"]),
+                        ("invariant implies C11 safety", ["--init=IndInit", "--inv=Safe", "--length=0"])]
+    done = []
+    with Scratch("apa") as tmp:
+        for name, args in obligations:
+            try:
+                p = subprocess.run(["apalache-mc", "check", *args, f"--out-dir={tmp}/out", str(SPEC / "apalache" / "MPInd.tla")],
+                                   capture_output=True, text=True, timeout=900, cwd=str(tmp))
+            except subprocess.TimeoutExpired:
+                rep.notes.append(f"apalache obligation '{name}' timed out (not a verdict)")
+                continue
+            ok = "EXITCODE: OK" in p.stdout
+            done.append({"obligation": name, "discharged": ok})
+            if not ok and "The outcome is: Error" in p.stdout:
+                rep.fail({"stage": "apalache", "obligation": name},
+                         f"MPInd.tla: the inductive invariant of the reducer fails ({name})")
+            elif not ok:
+                raise Machinery(f"apalache failed on '{name}': {p.stdout[-600:]}")
+    rep.cov["apalache_inductive_invariant"] = {"spec": "spec/apalache/MPInd.tla", "obligations": done,
+                                               "meaning": "for any number of messages per worker, nb = 0 implies every "
+                                                          "solution of every worker has been yielded exactly once"}
+
+
 def c11(tier, seed, replay):
     rep = Report("C11", tier, "model_checking")
     recs, failures = mp.c11_pipeline(rep, tier, seed, jit=False)
+    apalache_stage(rep, tier)
     for clause, case in failures:
         if clause.startswith("C11:"):
             rep.fail(case, f"{clause} mode={case['mode']} kind={case['kind']} arrival order={case['gets']} streams={case['streams']}")
